@@ -10,6 +10,7 @@ let areas : (string list -> string option) list = [
   D_c11.run_case;
   D_c12.run_case;
   D_pkt.run_case;
+  D_c16.run_case;
 ]
 
 let run_case toks =
